@@ -11,7 +11,9 @@ from vf import common, drive, gen_exps, gen_macros, enum_exps, litref
 from vf.pool import pmap
 
 SEPS = {"space": " ", "tab": "\t", "newline": "\n", "crlf": "\r\n", "two-spaces": "  ", "backslash-newline": " \\\n ", "block-comment": "/* c */",
-        "block-comment-stars": "/** c * **/", "line-comment": " // c ; } \"\n", "comment-and-newline": "\n/* x */\n", "empty": ""}
+        "block-comment-stars": "/** c * **/", "line-comment": " // c ; } \"\n", "comment-and-newline": "\n/* x */\n", "empty": "",
+        # a comment that looks like a file attribute, but is not at the top of the file (separators stand between two tokens)
+        "attribute-like-comment": "\n//?: is-ssb-script: true\n", "attribute-like-block-comment": " /* //?: is-ssb-script: 1 */ "}
 PUNCT = {"(": "OPEN_PAREN", ")": "CLOSE_PAREN", "{": "OPEN_BRACE", "}": "CLOSE_BRACE", ",": "COMMA", ":": "COLON", ";": "SEMI", "[": "OPEN_BRACKET", "]": "CLOSE_BRACKET"}
 
 
